@@ -13,7 +13,7 @@ STRUCT_BINS := $(B)/qsl $(B)/map $(B)/bst $(B)/mem
 ACTOR_HDR := $(wildcard harness/actor/*.hpp harness/actor/*.inc)
 ALL := $(STRUCT_BINS) $(B)/actor $(B)/thpool $(B)/thpool_race $(B)/foreign $(B)/ctxrace
 
-.PHONY: all bins lib-asan lib-tsan lib-fuzz clean FORCE
+.PHONY: all bins fuzz lib-asan lib-tsan lib-fuzz clean FORCE
 all:
 	@$(MAKE) --no-print-directory lib-asan lib-tsan
 	@$(MAKE) --no-print-directory bins
@@ -57,6 +57,11 @@ $(B)/foreign: harness/multictx/foreign.cpp $(COMMON) $(B)/lib-asan/libmodule.a
 	$(CXX) $(CXXFLAGS) $(ASAN) $(LIBINC) -I$(B)/lib-asan/gen harness/multictx/foreign.cpp $(B)/lib-asan/libmodule.a -lrapidcheck -lpthread -ldl -o $@
 $(B)/ctxrace: harness/multictx/ctxrace.cpp $(COMMON) $(B)/lib-tsan/libmodule.a
 	$(CXX) $(CXXFLAGS) $(TSAN) $(LIBINC) -I$(B)/lib-tsan/gen harness/multictx/ctxrace.cpp $(B)/lib-tsan/libmodule.a -lrapidcheck -lpthread -ldl -o $@
+
+FUZZ_BINS := $(B)/fuzz_map $(B)/fuzz_bst $(B)/fuzz_qsl $(B)/fuzz_mem
+fuzz: $(FUZZ_BINS)
+$(FUZZ_BINS): $(B)/fuzz_%: harness/structs/%.cpp $(COMMON) $(B)/lib-fuzz/libmodule.a
+	$(CXX) $(CXXFLAGS) -fsanitize=fuzzer,address,undefined -fno-sanitize-recover=undefined -DFUZZ_TARGET $(LIBINC) -I$(B)/lib-fuzz/gen $< $(B)/lib-fuzz/libmodule.a -lpthread -ldl -o $@
 
 clean:
 	rm -rf $(B)
